@@ -323,6 +323,92 @@ func checkC13(w *World, r *Report) {
 	r.Rule("R13.11", "a default is judged against the whole effective range: the Validate that validateDefault relies on asks every part of a multi-part range (same analysis as R16.12) — a default equal to the upper end of a non-last part must not be refused", 3)
 	r.guard("R13.11", func() { partsScan(w, r, "R13.11") })
 
+	r.Rule("R13.12", "each part of a range or length argument is read on its own: in the loops of the argument parsers (the Parse methods of parse/arg.go) no local that lives outside the loop is read in an iteration before that iteration has set it as a whole — a min/max flag or a bound left over from one part must not leak into the next ('min..5 | 9..12')", 2)
+	r.guard("R13.12", func() {
+		sp := w.SSAPkg("parse")
+		n := 0
+		for _, f := range allFuncs(sp) {
+			if f.Parent() != nil || isTestFile(w, f.Pos()) || nm(f) != "Parse" || f.Signature.Recv() == nil || !strings.HasSuffix(w.Fset.Position(f.Pos()).Filename, "/arg.go") {
+				continue
+			}
+			for _, l := range ssaLoops(f) {
+				n++
+				body := l.body()
+				bad := ""
+				for _, b := range f.Blocks {
+					for _, in := range b.Instrs {
+						cell, ok := in.(*ssa.Alloc)
+						if !ok || cell.Heap || body[b] {
+							continue
+						}
+						// reads and whole-cell writes inside the loop
+						var reads []ssa.Instruction
+						var resets []ssa.Instruction
+						partial := false
+						var visit func(addr ssa.Value, whole bool)
+						visit = func(addr ssa.Value, whole bool) {
+							refs := addr.Referrers()
+							if refs == nil {
+								return
+							}
+							for _, ref := range *refs {
+								if !body[ref.Block()] {
+									continue
+								}
+								switch x := ref.(type) {
+								case *ssa.Store:
+									if x.Addr == addr {
+										if whole {
+											resets = append(resets, x)
+										} else {
+											partial = true
+										}
+									}
+								case *ssa.UnOp:
+									reads = append(reads, x)
+								case *ssa.FieldAddr:
+									visit(x, false)
+								case *ssa.IndexAddr:
+									visit(x, false)
+								}
+							}
+						}
+						visit(cell, true)
+						if len(reads) == 0 || (len(resets) == 0 && !partial) {
+							continue
+						}
+						for _, rd := range reads {
+							covered := false
+							for _, rs := range resets {
+								if rs.Block() == rd.Block() {
+									for _, x := range rd.Block().Instrs {
+										if x == rs {
+											covered = true
+											break
+										}
+										if x == rd {
+											break
+										}
+									}
+								} else if rs.Block().Dominates(rd.Block()) {
+									covered = true
+								}
+							}
+							if !covered {
+								bad = cell.Comment
+							}
+						}
+					}
+				}
+				r.Check(bad == "", "R13.12", fmt.Sprintf("%s loop #%d reads each part afresh", funcKey(f), n), l.Header.Instrs[0].Pos(), "no local from outside the loop is read before the iteration has set it",
+					"the local '"+bad+"' lives outside the loop and an iteration reads it (or a part of it) without having set it as a whole: what one part of 'a..b | c..d' left in it (a min/max flag, a bound) leaks into the next part")
+			}
+		}
+		if n == 0 {
+			panic(undecided{"no loops in the argument parsers"})
+		}
+	})
+
 	r.Rule("R13.5", "a default that the final type rejects is refused: validateDefault is called unconditionally on every path that returns a type from makeBuiltinType and refineType, and it validates the default with the type's own Validate", 3)
 	r.guard("R13.5", func() {
 		vd := w.Method("compile", "Compiler", "validateDefault")
